@@ -1,15 +1,24 @@
-"""Self-tests (thorough tier): scratch-copy variants of /repo with exactly one
-instance broken; the named rule must fire and name that instance.  Validates the
-checker, not /repo.  (variants live in /verif/selftest/<name>/)"""
-import os, json, subprocess, tempfile, shutil, importlib
+"""Self-tests (thorough tier): scratch-copy variants of /repo — one-instance-broken variants on
+which the named rule must fire and name that instance, behaviour-preserving refactorings on
+which every rule must stay silent, and the seeded changes produced by independent sub-agents.
+Validates the checker, not /repo.  (variants live in /verif/selftest/<name>/ and /verif/seeded/<id>/)
+
+Fact files of variants are cached under .cache/variants, keyed by /repo's HEAD, its uncommitted
+diff, the variant patch and the feature configuration, so the thorough runs of the 15
+properties compile each variant once; several variants are compiled in parallel, each worker with
+its own cargo target directory."""
+import os, json, subprocess, tempfile, shutil, importlib, hashlib
+from concurrent.futures import ThreadPoolExecutor
+import threading
 
 ROOT = os.path.dirname(os.path.dirname(os.path.abspath(__file__)))
 REPO = os.environ.get("HC_REPO", "/repo")
+VCACHE = os.path.join(ROOT, ".cache", "variants")
+WORKERS = 4
+_wt_lock = threading.Lock()
 
 
 def variants_for(prop):
-    """own one-instance-broken / behaviour-preserving variants (selftest/) and the seeded changes
-    produced by independent sub-agents (seeded/), for the given property"""
     out = []
     for base in ("selftest", "seeded"):
         d = os.path.join(ROOT, base)
@@ -28,66 +37,118 @@ def variants_for(prop):
     return out
 
 
-def run_variant(m, extract):
-    """returns dict(name, status ok|fail|skipped, why)"""
-    from .facts import Crate
-    from .engine import Ctx
+def _state_key():
+    head = subprocess.run(["git", "-C", REPO, "rev-parse", "HEAD"], capture_output=True, text=True).stdout.strip()
+    diff = subprocess.run(["git", "-C", REPO, "diff", "HEAD"], capture_output=True, text=True).stdout
+    return head, diff
+
+
+def _worker_target(k):
+    """a private cargo target directory for worker k, seeded from the warmed main one"""
+    main_t = os.path.join(ROOT, ".cache", "target")
+    t = os.path.join(ROOT, ".cache", "target-st%d" % k)
+    if not os.path.isdir(t) and os.path.isdir(main_t):
+        subprocess.run(["cp", "-a", main_t, t], capture_output=True)
+    return t
+
+
+def variant_facts(m, extract, worker=0, state=None):
+    """(path of the fact file of the variant, '') or (None, (status, why))"""
+    head, diff = state or _state_key()
+    patch = open(os.path.join(m["dir"], "patch.diff"), "rb").read()
+    cfg = m.get("config", "all")
+    key = hashlib.sha256(b"\0".join([head.encode(), diff.encode(), patch, cfg.encode()])).hexdigest()[:24]
+    os.makedirs(VCACHE, exist_ok=True)
+    out = os.path.join(VCACHE, key + ".json")
+    if os.path.exists(out) and os.path.getsize(out) > 0:
+        return out, ""
     tmp = tempfile.mkdtemp(prefix="hcsa-selftest-")
+    work = os.path.join(tmp, "repo")
     try:
-        work = os.path.join(tmp, "repo")
-        subprocess.run(["git", "-C", REPO, "worktree", "add", "--detach", "-q", work], check=True, capture_output=True)
-        try:
-            # bring over uncommitted edits of /repo's working tree as well
-            diff = subprocess.run(["git", "-C", REPO, "diff", "HEAD"], capture_output=True, text=True).stdout
-            if diff.strip():
-                p = subprocess.run(["git", "-C", work, "apply"], input=diff, text=True, capture_output=True)
-                if p.returncode != 0:
-                    return {"name": m["name"], "status": "skipped", "why": "working-tree diff of /repo does not apply to a fresh worktree"}
-            if os.path.exists(os.path.join(REPO, "Cargo.lock")) and not os.path.exists(os.path.join(work, "Cargo.lock")):
-                shutil.copy(os.path.join(REPO, "Cargo.lock"), os.path.join(work, "Cargo.lock"))
-            p = subprocess.run(["git", "-C", work, "apply", os.path.join(m["dir"], "patch.diff")], capture_output=True, text=True)
+        with _wt_lock:
+            subprocess.run(["git", "-C", REPO, "worktree", "add", "--detach", "-q", work], check=True, capture_output=True)
+        # bring over uncommitted edits of /repo's working tree as well
+        if diff.strip():
+            p = subprocess.run(["git", "-C", work, "apply"], input=diff, text=True, capture_output=True)
             if p.returncode != 0:
-                return {"name": m["name"], "status": "skipped", "why": "variant patch no longer applies to the current /repo: %s" % p.stderr.strip()[:200]}
-            try:
-                path = extract(m.get("config", "all"), repo=work, out=os.path.join(tmp, "facts.json"))
-            except Exception as e:
-                return {"name": m["name"], "status": "fail", "why": "variant does not type-check / extract: %r" % (e,)}
-            crate = Crate(path)
-            res = {}
-            for prop in m["properties"]:
-                mod = importlib.import_module("hcsa.rules." + prop.lower())
-                ctx = Ctx(crate, "selftest")
-                for r in mod.RULES:
-                    feat = getattr(r, "needs_feature", None)
-                    if feat and feat not in crate.features:
-                        continue
-                    r(ctx)
-                fails = [i for i in ctx.insts if i.verdict != "pass"]
-                res[prop] = fails
-            problems = []
-            for prop, exp in m["expect"].items():
-                fails = res.get(prop, [])
-                for needle in exp:
-                    if not any(needle in i.key or needle in i.anchor or needle in i.rule for i in fails):
-                        problems.append("%s: expected a violation matching %r, got %s" % (prop, needle, [i.key for i in fails][:4]))
-            for prop in m["properties"]:
-                if prop not in m["expect"] and res.get(prop):
-                    problems.append("%s: unexpected violations %s" % (prop, [i.key for i in res[prop]][:4]))
-            if problems:
-                return {"name": m["name"], "status": "fail", "why": "; ".join(problems)}
-            return {"name": m["name"], "status": "ok", "why": "fired: %s" % {p: sorted(set(i.rule for i in f)) for p, f in res.items() if f}}
-        finally:
+                return None, ("skipped", "working-tree diff of /repo does not apply to a fresh worktree")
+        if os.path.exists(os.path.join(REPO, "Cargo.lock")) and not os.path.exists(os.path.join(work, "Cargo.lock")):
+            shutil.copy(os.path.join(REPO, "Cargo.lock"), os.path.join(work, "Cargo.lock"))
+        p = subprocess.run(["git", "-C", work, "apply", os.path.join(m["dir"], "patch.diff")], capture_output=True, text=True)
+        if p.returncode != 0:
+            return None, ("skipped", "variant patch no longer applies to the current /repo: %s" % p.stderr.strip()[:200])
+        try:
+            part = out + ".part%d" % os.getpid()
+            extract(cfg, repo=work, out=part, target=_worker_target(worker))
+            os.replace(part, out)
+        except Exception as e:
+            return None, ("fail", "variant does not type-check / extract: %r" % (e,))
+        return out, ""
+    finally:
+        with _wt_lock:
             subprocess.run(["git", "-C", REPO, "worktree", "remove", "--force", work], capture_output=True)
             subprocess.run(["git", "-C", REPO, "worktree", "prune"], capture_output=True)
-    finally:
         shutil.rmtree(tmp, ignore_errors=True)
 
 
-def run(prop, extract):
-    out = []
-    for m in variants_for(prop):
+def judge(m, prop, path):
+    from .facts import Crate
+    from .engine import Ctx
+    crate = Crate(path)
+    mod = importlib.import_module("hcsa.rules." + prop.lower())
+    ctx = Ctx(crate, "selftest")
+    for r in mod.RULES:
+        feat = getattr(r, "needs_feature", None)
+        if feat and feat not in crate.features:
+            continue
         try:
-            out.append(run_variant(m, extract))
+            r(ctx)
         except Exception as e:
-            out.append({"name": m["name"], "status": "fail", "why": "selftest crashed: %r" % (e,)})
-    return out
+            ctx.fail(prop, getattr(r, "__name__", "rule"), "rule evaluation", "internal error: %r" % (e,))
+    fails = [i for i in ctx.insts if i.verdict != "pass"]
+    problems = []
+    exp = m.get("expect", {}).get(prop)
+    if exp:
+        for needle in exp:
+            if not any(needle in i.key or needle in i.anchor or needle in i.rule for i in fails):
+                problems.append("%s: expected a violation matching %r, got %s" % (prop, needle, [i.key for i in fails][:4]))
+    elif fails and not m.get("tolerated", {}).get(prop):
+        problems.append("%s: unexpected violations %s" % (prop, [i.key for i in fails][:4]))
+    if problems:
+        return {"name": m["name"], "status": "fail", "why": "; ".join(problems)}
+    return {"name": m["name"], "status": "ok", "why": ("fired: %s" % sorted(set(i.rule for i in fails))) if fails else "silent, as expected"}
+
+
+def run(prop, extract):
+    vs = variants_for(prop)
+    state = _state_key()
+    results = [None] * len(vs)
+    slots = list(range(WORKERS))
+    slot_lock = threading.Lock()
+
+    def job(k):
+        m = vs[k]
+        with slot_lock:
+            w = slots.pop() if slots else 0
+        try:
+            path, err = variant_facts(m, extract, worker=w, state=state)
+        except Exception as e:
+            path, err = None, ("fail", "selftest crashed: %r" % (e,))
+        finally:
+            with slot_lock:
+                slots.append(w)
+        return k, path, err
+
+    with ThreadPoolExecutor(WORKERS) as ex:
+        done = list(ex.map(job, range(len(vs))))
+    # the rule evaluation itself is sequential: the analysis keeps per-process caches
+    for k, path, err in done:
+        m = vs[k]
+        if path is None:
+            results[k] = {"name": m["name"], "status": err[0], "why": err[1]}
+            continue
+        try:
+            results[k] = judge(m, prop, path)
+        except Exception as e:
+            results[k] = {"name": m["name"], "status": "fail", "why": "selftest crashed: %r" % (e,)}
+    return results
